@@ -6,8 +6,7 @@ use std::net::UdpSocket;
 use std::time::SystemTime;
 
 use crate::inproc::{client_socket, drain, reply_proto, HConfig, Inproc};
-use crate::prng::Rng;
-use crate::refimpl::crypto::{srv_value, Proto, RefKey, DRAFT13};
+use crate::refimpl::crypto::{srv_value, Proto, RefKey};
 use crate::refimpl::req::{self, Expect, ReqInfo};
 use crate::refimpl::verify::{verify_response, Opts, ReqView, Verified};
 
@@ -166,212 +165,4 @@ pub fn contains(hay: &[u8], needle: &[u8]) -> bool {
     !needle.is_empty() && hay.len() >= needle.len() && hay.windows(needle.len()).any(|w| w == needle)
 }
 
-// ------------------------------------------------------------------ datagram generators
-
-#[derive(Clone, Debug)]
-pub struct Dgram {
-    pub data: Vec<u8>,
-    pub class: &'static str,
-}
-
-pub fn aligned_size(rng: &mut Rng) -> usize {
-    match rng.below(6) {
-        0 => 1024,
-        1 => 1500,
-        2 => 1028,
-        3 => 1496,
-        _ => (rng.range(256, 375) * 4) as usize,
-    }
-}
-
-pub fn valid_classic(rng: &mut Rng) -> Dgram {
-    let n = rng.bytes(64);
-    Dgram { data: req::classic_request(&n, aligned_size(rng)), class: "valid-classic" }
-}
-
-pub fn valid_ietf(rng: &mut Rng, srv: Option<&[u8]>) -> Dgram {
-    let n = rng.bytes(32);
-    let vers: Vec<u32> = match rng.below(5) {
-        0 => vec![0, DRAFT13],
-        1 => vec![DRAFT13, 0x8000000d],
-        2 => vec![1, 2, 3, DRAFT13],
-        _ => vec![DRAFT13],
-    };
-    let with_srv = srv.is_some() && rng.chance(1, 2);
-    Dgram { data: req::ietf_request(&vers, if with_srv { srv } else { None }, &n, aligned_size(rng)), class: "valid-ietf" }
-}
-
-/// A hostile datagram: one of many classes around the server's acceptance rules.
-pub fn hostile(rng: &mut Rng, srv: &[u8]) -> Dgram {
-    let k = rng.below(34);
-    match k {
-        0 => Dgram { data: vec![], class: "empty" },
-        1 => Dgram { data: rng.rbytes(1, 1023), class: "random-short" },
-        2 => Dgram { data: rng.bytes(1023), class: "random-1023" },
-        3 => Dgram { data: rng.bytes(1024), class: "random-1024" },
-        4 => Dgram { data: rng.rbytes(1025, 1499), class: "random-mid" },
-        5 => Dgram { data: rng.bytes(1500), class: "random-1500" },
-        6 => Dgram { data: rng.bytes(1501), class: "random-1501" },
-        7 => Dgram { data: rng.rbytes(1501, 65507), class: "random-large" },
-        8 => Dgram { data: rng.bytes(65507), class: "random-65507" },
-        9 => {
-            // well-formed but just outside the window (aligned sizes)
-            let sz = *rng.pick(&[1000usize, 1012, 1016, 1020, 1504, 1508, 1512, 2048]);
-            let d = if rng.chance(1, 2) { req::classic_request(&rng.bytes(64), sz) } else { req::ietf_request(&[DRAFT13], None, &rng.bytes(32), sz) };
-            Dgram { data: d, class: "wellformed-outside-window" }
-        }
-        10 => {
-            // truncated valid request
-            let mut d = if rng.chance(1, 2) { valid_classic(rng).data } else { valid_ietf(rng, Some(srv)).data };
-            let l = rng.usize_below(d.len());
-            d.truncate(l);
-            Dgram { data: d, class: "truncated" }
-        }
-        11 => {
-            let mut d = if rng.chance(1, 2) { valid_classic(rng).data } else { valid_ietf(rng, Some(srv)).data };
-            let e = rng.rbytes(1, 600);
-            d.extend_from_slice(&e);
-            Dgram { data: d, class: "extended" }
-        }
-        12 => {
-            // frame length field off
-            let mut d = valid_ietf(rng, Some(srv)).data;
-            let real = (d.len() - 12) as u32;
-            let v = *rng.pick(&[real + 4, real - 4, real + 1, 0, 0xffff_ffff, real ^ 0x100, 1012, 1488]);
-            d[8..12].copy_from_slice(&v.to_le_bytes());
-            Dgram { data: d, class: "frame-length-wrong" }
-        }
-        13 => {
-            // frame magic damaged
-            let mut d = valid_ietf(rng, Some(srv)).data;
-            let i = rng.usize_below(8);
-            d[i] ^= 1 << rng.below(8);
-            Dgram { data: d, class: "frame-magic-damaged" }
-        }
-        14 => {
-            // nonce of another aligned length
-            let nl = (rng.below(371) * 4) as usize;
-            let n = rng.bytes(nl);
-            let sz = std::cmp::max(1024, ((nl + 64) / 4 * 4).min(1500));
-            let d = if rng.chance(1, 2) { req::classic_request(&n, sz) } else { req::ietf_request(&[DRAFT13], None, &n, sz) };
-            Dgram { data: d, class: "nonce-odd-length" }
-        }
-        15 => {
-            let d = if rng.chance(1, 2) { req::classic_request(&[], 1024) } else { req::ietf_request(&[DRAFT13], None, &[], 1024) };
-            Dgram { data: d, class: "nonce-empty" }
-        }
-        16 => {
-            // no nonce at all
-            let d = if rng.chance(1, 2) {
-                let mut m = crate::refimpl::codec::RefMsg::new();
-                m.set(crate::refimpl::codec::PAD, &vec![0u8; 1016]);
-                m.encode()
-            } else {
-                req::ietf_request_raw(Some(&DRAFT13.to_le_bytes()), None, None, 1024)
-            };
-            Dgram { data: d, class: "nonce-missing" }
-        }
-        17 => {
-            let vers: Vec<u32> = match rng.below(4) {
-                0 => vec![],
-                1 => vec![0],
-                2 => vec![0x8000000b, 0x8000000d],
-                _ => vec![1, 2, 3, 4, 5],
-            };
-            Dgram { data: req::ietf_request(&vers, None, &rng.bytes(32), 1024), class: "ietf-no-supported-version" }
-        }
-        18 => Dgram { data: req::ietf_request_raw(None, None, Some(&rng.bytes(32)), 1024), class: "ietf-ver-missing" },
-        19 => {
-            let mut s = srv.to_vec();
-            if rng.chance(1, 2) {
-                let i = rng.usize_below(32);
-                s[i] ^= 1 << rng.below(8);
-            } else {
-                s = rng.rbytes(0, 16);
-                s.truncate(s.len() / 4 * 4);
-            }
-            Dgram { data: req::ietf_request(&[DRAFT13], Some(&s), &rng.bytes(32), 1024), class: "ietf-srv-wrong" }
-        }
-        20 | 21 => {
-            // structured codec mutation of a valid request payload
-            let ietf = rng.chance(1, 2);
-            let base = if ietf { valid_ietf(rng, Some(srv)).data } else { valid_classic(rng).data };
-            let (hdr, payload) = if ietf { (base[..12].to_vec(), base[12..].to_vec()) } else { (vec![], base.clone()) };
-            let nf = u32::from_le_bytes([payload[0], payload[1], payload[2], payload[3]]) as usize;
-            let m = crate::codecgen::mutate(rng, &payload, nf);
-            let mut d = hdr;
-            d.extend_from_slice(&m.bytes);
-            if ietf && rng.chance(2, 3) && d.len() >= 12 {
-                let l = (d.len() - 12) as u32;
-                d[8..12].copy_from_slice(&l.to_le_bytes());
-            }
-            Dgram { data: d, class: "codec-mutant" }
-        }
-        22 => {
-            // random single bit flip anywhere in a valid request
-            let mut d = if rng.chance(1, 2) { valid_classic(rng).data } else { valid_ietf(rng, Some(srv)).data };
-            let i = rng.usize_below(std::cmp::min(d.len(), 120));
-            d[i] ^= 1 << rng.below(8);
-            Dgram { data: d, class: "bit-flip-header" }
-        }
-        23 => {
-            // a *response*-shaped message sent as a request
-            let mut m = crate::refimpl::codec::RefMsg::new();
-            m.set(crate::refimpl::codec::SIG, &rng.bytes(64));
-            m.set(crate::refimpl::codec::NONC, &rng.bytes(64));
-            m.set(crate::refimpl::codec::CERT, &rng.bytes(152));
-            m.set(crate::refimpl::codec::PAD, &vec![0u8; 740]);
-            Dgram { data: m.encode(), class: "response-shaped" }
-        }
-        24 => {
-            // only the magic, or magic + garbage
-            let mut d = b"ROUGHTIM".to_vec();
-            let e = rng.rbytes(0, 1492);
-            d.extend_from_slice(&e);
-            Dgram { data: d, class: "magic-then-garbage" }
-        }
-        25 => {
-            // zero-tag message of request size
-            Dgram { data: vec![0u8; aligned_size(rng)], class: "zero-tags" }
-        }
-        26 => {
-            // IETF request with tiny nonce (4 bytes) / classic with 4 bytes
-            let n = rng.bytes(4);
-            let d = if rng.chance(1, 2) { req::classic_request(&n, 1024) } else { req::ietf_request(&[DRAFT13], None, &n, 1024) };
-            Dgram { data: d, class: "nonce-4-bytes" }
-        }
-        27 => {
-            // huge nonce filling the packet
-            let d = if rng.chance(1, 2) { req::classic_request(&rng.bytes(1000), 1024) } else { req::ietf_request(&[DRAFT13], None, &rng.bytes(960), 1024) };
-            Dgram { data: d, class: "nonce-huge" }
-        }
-        28 => {
-            // VER list long / unaligned length
-            let mut v = Vec::new();
-            for _ in 0..rng.range(5, 40) {
-                v.extend_from_slice(&rng.next_u32().to_le_bytes());
-            }
-            if rng.chance(1, 2) {
-                v.extend_from_slice(&DRAFT13.to_le_bytes());
-            }
-            Dgram { data: req::ietf_request_raw(Some(&v), None, Some(&rng.bytes(32)), 1024), class: "ietf-long-ver-list" }
-        }
-        29 => {
-            // classic request with extra known tags
-            let mut m = crate::refimpl::codec::RefMsg::new();
-            m.set(crate::refimpl::codec::NONC, &rng.bytes(64));
-            m.set(crate::refimpl::codec::SIG, &rng.bytes(64));
-            m.set(crate::refimpl::codec::INDX, &rng.bytes(4));
-            let l = m.encode().len() + 8;
-            m.set(crate::refimpl::codec::PAD, &vec![0u8; 1024 - l]);
-            Dgram { data: m.encode(), class: "classic-extra-tags" }
-        }
-        _ => {
-            if rng.chance(1, 2) {
-                valid_classic(rng)
-            } else {
-                valid_ietf(rng, Some(srv))
-            }
-        }
-    }
-}
+pub use crate::dgen::*;
